@@ -36,6 +36,8 @@ void vm_begin_case(const vm_policy *p);
 void vm_end_case(vm_report *out);
 void vm_pause(void);
 void vm_resume(void);
+int vm_suspend(void);
+void vm_restore(int was);
 size_t vm_alloc_count(void);
 int vm_live_blocks(void);
 void vm_set_fail(size_t k1, size_t k2);
